@@ -143,76 +143,50 @@ func c08Inputs(c *Ctx, t *tables.Tree) {
 	}
 	for _, cn := range []string{"saveCmd", "savePipelineCmd"} {
 		run := t.Cmds[cn].Run
-		var saveCall *ssa.Call
-		ssau.ForEachInstr(run, false, func(in ssa.Instruction) {
-			if call, ok := in.(*ssa.Call); ok && ssau.CallName(call) == cliPkg+".saveToPersonalDatabase" {
-				saveCall = call
+		// the save call, in the Run closure or in a helper it delegates to; the
+		// entry and the path are described under the call stack that leads there,
+		// so helpers shared by the two commands are read once per command
+		ev := &ctxEval{c: c, Leaf: func(v ssa.Value, stack []*ssa.Call) string {
+			if f, ok := flagSource(v); ok {
+				return "flag:" + f
 			}
-		})
+			if k, ok := argSource(run, v); ok {
+				return fmt.Sprintf("arg%d", k)
+			}
+			if call, ok := v.(*ssa.Call); ok && ssau.CallName(call) == cfgMeth+"GetPersonalDatabasePath" {
+				return "call:" + ssau.CallName(call)
+			}
+			return ""
+		}}
+		saveCall, stack := reachCall(c, run, cliPkg+".saveToPersonalDatabase", nil, 3)
 		if saveCall == nil {
 			r.Unknown("O-2", "cli."+cn+".Run#save-call", c.P.Pos(run.Pos()), "no call of saveToPersonalDatabase found")
 			continue
 		}
-		// the entry argument: load of a local Command literal
-		var lit *ssa.Alloc
-		if u, ok := saveCall.Common().Args[1].(*ssa.UnOp); ok {
-			lit, _ = u.X.(*ssa.Alloc)
-		}
-		if lit == nil {
-			r.Unknown("O-2", "cli."+cn+".Run#entry", c.P.Pos(saveCall.Pos()), "entry argument is not a local Command literal")
+		fields := ev.Fields(saveCall.Common().Args[1], stack)
+		if fields == nil {
+			r.Unknown("O-2", "cli."+cn+".Run#entry", c.P.Pos(saveCall.Pos()), "entry argument is not a Command value")
 			continue
 		}
-		// if `entry` is a variable initialised from a complit, follow the copy
-		fields := map[string]ssa.Value{}
-		var collect func(al *ssa.Alloc)
-		collect = func(al *ssa.Alloc) {
-			for _, ref := range *al.Referrers() {
-				switch x := ref.(type) {
-				case *ssa.FieldAddr:
-					for _, r2 := range *x.Referrers() {
-						if st, ok := r2.(*ssa.Store); ok && st.Addr == ssa.Value(x) {
-							fields[ssau.FieldName(x)] = st.Val
-						}
-					}
-				case *ssa.Store:
-					if x.Addr == ssa.Value(al) {
-						if u, ok := x.Val.(*ssa.UnOp); ok {
-							if src, ok := u.X.(*ssa.Alloc); ok {
-								collect(src)
-							}
-						}
-					}
-				}
-			}
-		}
-		collect(lit)
 		// personal path argument
-		pathOK := false
-		if pc, ok := saveCall.Common().Args[0].(*ssa.Call); ok && ssau.CallName(pc) == cfgMeth+"GetPersonalDatabasePath" {
-			pathOK = true
-		}
+		pathOK := ev.Describe(saveCall.Common().Args[0], stack) == "call:"+cfgMeth+"GetPersonalDatabasePath"
 		r.Check(pathOK, "O-5", "cli."+cn+".Run#save-path", c.P.Pos(saveCall.Pos()), "saves to Config.GetPersonalDatabasePath()", "the save does not go to the personal database path that the loader reads")
 		for f, w := range want[cn] {
 			key := fmt.Sprintf("cli.%s.Run#entry.%s", cn, f)
-			v, ok := fields[f]
-			if !ok {
+			got, ok := fields[f]
+			if !ok || got == "zero" {
 				r.Bad("O-2", key, c.P.Pos(saveCall.Pos()), "field "+f+" of the saved entry is not set: the user's input for it is dropped")
 				continue
 			}
-			got := describeSource(run, v)
 			good := false
 			switch {
 			case strings.HasPrefix(w, "append("):
 				// append(<auto keywords chain>, flag:keywords...)
-				if call, ok := v.(*ssa.Call); ok && ssau.CallName(call) == "builtin.append" {
-					if fs, ok := flagSource(call.Common().Args[1]); ok && fs == "keywords" {
-						good = true
-					}
-				}
+				good = strings.HasPrefix(got, "append(") && strings.HasSuffix(got, ", flag:keywords...)") && strings.Count(got, "flag:") == 1
 			case strings.HasPrefix(w, "phi("):
-				if phi, ok := v.(*ssa.Phi); ok {
-					for _, e := range phi.Edges {
-						if fs, ok := flagSource(e); ok && fs == "description" {
+				if strings.HasPrefix(got, "phi(") && strings.HasSuffix(got, ")") {
+					for _, part := range strings.Split(got[4:len(got)-1], "|") {
+						if part == "flag:description" {
 							good = true
 						}
 					}
@@ -220,12 +194,17 @@ func c08Inputs(c *Ctx, t *tables.Tree) {
 			default:
 				good = got == w
 			}
-			r.Check(good, "O-2", key, c.P.Pos(v.Pos()), "= "+got, fmt.Sprintf("saved %s is %s, want %s unchanged", f, got, w))
+			r.Check(good, "O-2", key, c.P.Pos(saveCall.Pos()), "= "+got, fmt.Sprintf("saved %s is %s, want %s unchanged", f, got, w))
 		}
 		// persisted fields not in the table must not be set from an unrelated source
-		for f, v := range fields {
-			if _, ok := want[cn][f]; !ok {
-				r.Bad("O-2", fmt.Sprintf("cli.%s.Run#entry.%s", cn, f), c.P.Pos(v.Pos()), "field "+f+" is set by the save command although the user provides no input for it")
+		var names []string
+		for f := range fields {
+			names = append(names, f)
+		}
+		sort.Strings(names)
+		for _, f := range names {
+			if _, ok := want[cn][f]; !ok && fields[f] != "zero" {
+				r.Bad("O-2", fmt.Sprintf("cli.%s.Run#entry.%s", cn, f), c.P.Pos(saveCall.Pos()), "field "+f+" is set by the save command ("+fields[f]+") although the user provides no input for it")
 			}
 		}
 	}
@@ -238,6 +217,9 @@ func c08RMW(c *Ctx) {
 		return
 	}
 	fk := "cli.saveToPersonalDatabase"
+	if c08RMWObject(c, fn, fk) {
+		return
+	}
 	// the cell that receives the unmarshalled slice
 	var cell *ssa.Alloc
 	var unm *ssa.Call
@@ -374,67 +356,8 @@ func c08RMW(c *Ctx) {
 	// 2. element stores (in this function, or in the helper that computes the
 	// updated list: see below)
 	nElem := 0
-	var elemChecks func(body *ssa.Function, isCellLoad func(ssa.Value) bool, isEntry func(ssa.Value) bool, entryCommand func(ssa.Value) bool)
-	elemChecks = func(fn *ssa.Function, isCellLoad func(ssa.Value) bool, isEntry func(ssa.Value) bool, entryCommand func(ssa.Value) bool) {
-		cd := ssau.ControlDeps(fn)
-		ssau.ForEachInstr(fn, false, func(in ssa.Instruction) {
-			ia, ok := in.(*ssa.IndexAddr)
-			if !ok || !isCellLoad(ia.X) {
-				return
-			}
-			for _, ref := range *ia.Referrers() {
-				st, ok := ref.(*ssa.Store)
-				if !ok || st.Addr != ssa.Value(ia) {
-					continue
-				}
-				nElem++
-				key := fmt.Sprintf("%s#element-store-%d", fk, nElem)
-				if !isEntry(st.Val) {
-					r.Bad("O-3", key, c.P.Pos(st.Pos()), "an element of the notebook is overwritten with something other than the new entry")
-					continue
-				}
-				guarded := false
-				for _, d := range ssau.TransitiveControlDeps(cd, st.Block()) {
-					op, x, y, ok := ssau.CondOf(d.If().Cond)
-					if !ok || !((op == token.EQL && d.Then) || (op == token.NEQ && !d.Then)) {
-						continue
-					}
-					var other ssa.Value
-					if entryCommand(x) {
-						other = y
-					} else if entryCommand(y) {
-						other = x
-					}
-					if other == nil {
-						continue
-					}
-					// other must be commands[idx].Command for the same idx
-					base, ok := ssau.IsFieldLoad(other, cmdType, "Command")
-					if !ok {
-						continue
-					}
-					if sameElement(base, ia, isCellLoad) {
-						guarded = true
-					}
-				}
-				if !guarded {
-					// the index was found first and is used afterwards
-					guarded = c08MatchIndex(fn, cd, ia.Index, isCellLoad, entryCommand, entry)
-				}
-				r.Check(guarded, "O-3", key, c.P.Pos(st.Pos()), "commands[i] = entry under commands[i].Command == entry.Command", "an existing notebook entry is overwritten without the test that its command string equals the new entry's (or with a different index)")
-			}
-		})
-		// 3. other mutations of the slice: sort, copy, reslice stored back
-		ssau.ForEachInstr(fn, false, func(in ssa.Instruction) {
-			call, ok := in.(*ssa.Call)
-			if !ok {
-				return
-			}
-			n := ssau.CallName(call)
-			if (strings.HasPrefix(n, "sort.") || strings.HasPrefix(n, "slices.") || n == "builtin.copy" || n == "builtin.clear") && !readOnlySliceFunc[n] && len(call.Common().Args) > 0 && isCellLoad(ssau.Strip(call.Common().Args[0])) {
-				r.Bad("O-3", fk+"#reorder", c.P.Pos(call.Pos()), "the notebook slice is reordered or overwritten by "+n+": earlier entries do not keep their position")
-			}
-		})
+	elemChecks := func(body *ssa.Function, isCellLoad func(ssa.Value) bool, isEntry func(ssa.Value) bool, entryCommand func(ssa.Value) bool) {
+		c08ElemChecks(c, fk, &nElem, body, isCellLoad, isEntry, entryCommand, entry)
 	}
 	elemChecks(fn, isCellLoad, isEntry, entryCommand)
 	// the updated list may be computed by a helper handed the notebook and the
@@ -510,6 +433,81 @@ func c08RMW(c *Ctx) {
 		r.Check(wOK && (w.path == ssa.Value(fn.Params[0]) || ssau.ParamOf(w.path) == fn.Params[0]), "O-3", fmt.Sprintf("%s#write-%d", fk, len(writes)), c.P.Pos(w.call.Pos()), "writes the updated slice to dbPath", "the slice written is not the updated notebook slice, or it is written to a different path")
 	}
 	r.Floor("O-3", "write calls", len(writes), 1)
+	_ = unm
+	c08AfterWrites(c, fn, fk, writes, readCall)
+}
+
+// c08ElemChecks: element stores into, and other mutations of, the notebook
+// slice in fn (the save function, the helper computing the updated list, or a
+// method of the notebook object).
+func c08ElemChecks(c *Ctx, fk string, nElem *int, fn *ssa.Function, isCellLoad, isEntry, entryCommand func(ssa.Value) bool, entry *ssa.Parameter) {
+	r := c.R
+	cd := ssau.ControlDeps(fn)
+	ssau.ForEachInstr(fn, false, func(in ssa.Instruction) {
+		ia, ok := in.(*ssa.IndexAddr)
+		if !ok || !isCellLoad(ia.X) {
+			return
+		}
+		for _, ref := range *ia.Referrers() {
+			st, ok := ref.(*ssa.Store)
+			if !ok || st.Addr != ssa.Value(ia) {
+				continue
+			}
+			*nElem++
+			key := fmt.Sprintf("%s#element-store-%d", fk, *nElem)
+			if !isEntry(st.Val) {
+				r.Bad("O-3", key, c.P.Pos(st.Pos()), "an element of the notebook is overwritten with something other than the new entry")
+				continue
+			}
+			guarded := false
+			for _, d := range ssau.TransitiveControlDeps(cd, st.Block()) {
+				op, x, y, ok := ssau.CondOf(d.If().Cond)
+				if !ok || !((op == token.EQL && d.Then) || (op == token.NEQ && !d.Then)) {
+					continue
+				}
+				var other ssa.Value
+				if entryCommand(x) {
+					other = y
+				} else if entryCommand(y) {
+					other = x
+				}
+				if other == nil {
+					continue
+				}
+				// other must be commands[idx].Command for the same idx
+				base, ok := ssau.IsFieldLoad(other, cmdType, "Command")
+				if !ok {
+					continue
+				}
+				if sameElement(base, ia, isCellLoad) {
+					guarded = true
+				}
+			}
+			if !guarded {
+				// the index was found first and is used afterwards
+				guarded = c08MatchIndex(fn, cd, ia.Index, isCellLoad, entryCommand, entry)
+			}
+			r.Check(guarded, "O-3", key, c.P.Pos(st.Pos()), "commands[i] = entry under commands[i].Command == entry.Command", "an existing notebook entry is overwritten without the test that its command string equals the new entry's (or with a different index)")
+		}
+	})
+	// 3. other mutations of the slice: sort, copy, reslice stored back
+	ssau.ForEachInstr(fn, false, func(in ssa.Instruction) {
+		call, ok := in.(*ssa.Call)
+		if !ok {
+			return
+		}
+		n := ssau.CallName(call)
+		if (strings.HasPrefix(n, "sort.") || strings.HasPrefix(n, "slices.") || n == "builtin.copy" || n == "builtin.clear") && !readOnlySliceFunc[n] && len(call.Common().Args) > 0 && isCellLoad(ssau.Strip(call.Common().Args[0])) {
+			r.Bad("O-3", fk+"#reorder", c.P.Pos(call.Pos()), "the notebook slice is reordered or overwritten by "+n+": earlier entries do not keep their position")
+		}
+	})
+}
+
+// c08AfterWrites: success only after a write, and a failed read or parse
+// never reaches a write (writes: the write calls in fn; readCall: the call of
+// the reading helper in fn, if the read is delegated).
+func c08AfterWrites(c *Ctx, fn *ssa.Function, fk string, writes []*ssa.Call, readCall *ssa.Call) {
+	r := c.R
 	// 4b. success is reported only through the write: a constant-nil error is
 	// returned only after a write whose own error was tested nil on every
 	// path; returning the write's error directly is the other accepted form
@@ -578,7 +576,6 @@ func c08RMW(c *Ctx) {
 				r.Unknown("O-3", fk+"#error-guard:"+short, c.P.Pos(h.Pos()), "call not found")
 			}
 		}
-		_ = unm
 		return
 	}
 	for _, src := range []string{"os.ReadFile", yamlPkg + ".Unmarshal"} {
@@ -603,7 +600,6 @@ func c08RMW(c *Ctx) {
 			r.Check(okEdge, "O-3", fk+"#error-guard:"+short, c.P.Pos(call.Pos()), "a failure returns before any write", why)
 		}
 	}
-	_ = unm
 }
 
 // sameElement: base is the element the store's IndexAddr addresses — either
@@ -913,15 +909,20 @@ func c08Symmetry(c *Ctx) {
 	r.Analysed["yaml_sites"] = types_
 	want := "[]database.Command"
 	nSites := 0
+	inPkg := func(site, pkg string) bool {
+		// "cli.f:T", "(*cli.T).m:T", "(cli.T).m:T"
+		fnk := strings.Split(site, ":")[0]
+		return strings.HasPrefix(fnk, pkg+".") || strings.HasPrefix(fnk, "(*"+pkg+".") || strings.HasPrefix(fnk, "("+pkg+".")
+	}
 	for _, s := range types_["marshal"] {
-		if strings.HasPrefix(s, "cli.") {
+		if inPkg(s, "cli") {
 			nSites++
 			r.Check(strings.HasSuffix(s, ":"+want), "O-4", "yaml.Marshal@"+strings.Split(s, ":")[0], "", "marshals "+want, "the notebook writer marshals "+s+", not "+want)
 		}
 	}
 	for _, s := range types_["unmarshal"] {
 		fnk := strings.Split(s, ":")[0]
-		if strings.HasPrefix(s, "cli.saveToPersonalDatabase") || strings.HasPrefix(s, "database.LoadDatabase") {
+		if inPkg(s, "cli") || strings.HasPrefix(s, "database.LoadDatabase") {
 			nSites++
 			r.Check(strings.HasSuffix(s, ":*"+want), "O-4", "yaml.Unmarshal@"+fnk, "", "unmarshals into *"+want, "the notebook reader unmarshals into "+s+", not *"+want)
 		}
@@ -1274,4 +1275,145 @@ func notebookWritesDirect(c *Ctx, g *ssa.Function) []nbWrite {
 		}
 	})
 	return out
+}
+
+// c08RMWObject: the notebook is an object — a struct that holds the path and
+// the decoded list, filled by a constructor and changed and written by its
+// methods. The same obligations as in the written-out form, with "the cell"
+// being the list field of that struct. Reports whether this form is present.
+func c08RMWObject(c *Ctx, fn *ssa.Function, fk string) bool {
+	r := c.R
+	// the steps of fn: repository functions it calls directly
+	type step struct {
+		g    *ssa.Function
+		call *ssa.Call
+	}
+	var steps []step
+	ssau.ForEachInstr(fn, false, func(in ssa.Instruction) {
+		if call, ok := in.(*ssa.Call); ok {
+			if g := call.Common().StaticCallee(); g != nil && g.Blocks != nil && c.P.IsRepoFunc(g) && g.Pkg == fn.Pkg {
+				steps = append(steps, step{g, call})
+			}
+		}
+	})
+	// the field that yaml.Unmarshal fills
+	objT, objF := "", ""
+	var readCall *ssa.Call
+	for _, st := range steps {
+		for _, uc := range callsTo(st.g, yamlPkg+".Unmarshal") {
+			if fa, ok := ssau.Strip(uc.Common().Args[1]).(*ssa.FieldAddr); ok {
+				objT, objF = ssau.FieldOwner(fa), ssau.FieldName(fa)
+				readCall = st.call
+			}
+		}
+	}
+	if objT == "" {
+		return false
+	}
+	isCellLoad := func(v ssa.Value) bool {
+		_, ok := ssau.IsFieldLoad(v, objT, objF)
+		return ok
+	}
+	isCellAddr := func(v ssa.Value) bool {
+		fa, ok := v.(*ssa.FieldAddr)
+		return ok && ssau.FieldOwner(fa) == objT && ssau.FieldName(fa) == objF
+	}
+	entry := fn.Params[1]
+	entryIn := func(body *ssa.Function, site *ssa.Call) *ssa.Parameter {
+		// the parameter of body that receives fn's entry at site
+		for i, a := range site.Common().Args {
+			if i < len(body.Params) && (a == ssa.Value(entry) || ssau.ParamOf(a) == entry || paramCellLoad(a, entry)) {
+				return body.Params[i]
+			}
+		}
+		return nil
+	}
+	mkPreds := func(ep *ssa.Parameter) (isEntry, entryCommand func(ssa.Value) bool) {
+		isEntry = func(v ssa.Value) bool {
+			return ep != nil && (v == ssa.Value(ep) || paramCellLoad(v, ep))
+		}
+		entryCommand = func(v ssa.Value) bool {
+			base, ok := ssau.IsFieldLoad(v, cmdType, "Command")
+			if !ok || ep == nil {
+				return false
+			}
+			return base == ssa.Value(ep) || paramCell(base, ep)
+		}
+		return
+	}
+	// 1. every assignment of the list field outside the decoder is append(list, entry)
+	nStores, nElem := 0, 0
+	for _, g := range shippedFuncs(c) {
+		ssau.ForEachInstr(g, false, func(in ssa.Instruction) {
+			st, ok := in.(*ssa.Store)
+			if !ok || !isCellAddr(st.Addr) {
+				return
+			}
+			nStores++
+			good := false
+			var ep *ssa.Parameter
+			for _, sp := range steps {
+				if sp.g == g {
+					ep = entryIn(g, sp.call)
+				}
+			}
+			isEntry, _ := mkPreds(ep)
+			if call, ok := st.Val.(*ssa.Call); ok && ssau.CallName(call) == "builtin.append" && isCellLoad(call.Common().Args[0]) {
+				if ld, ok := call.Common().Args[0].(*ssa.UnOp); ok {
+					if fa, ok := ld.X.(*ssa.FieldAddr); ok && fa.X == st.Addr.(*ssa.FieldAddr).X {
+						if el := appendedSingle(call); el != nil && isEntry(el) {
+							good = true
+						}
+					}
+				}
+			}
+			r.Check(good, "O-3", fmt.Sprintf("%s#commands-assign-%d", fk, nStores), c.P.Pos(st.Pos()), "commands = append(commands, entry)", "the notebook slice is replaced by something other than append(commands, entry): earlier entries can be lost or reordered")
+		})
+	}
+	// 2. element stores and other mutations, in every step and in fn
+	for _, sp := range steps {
+		isEntry, entryCommand := mkPreds(entryIn(sp.g, sp.call))
+		c08ElemChecks(c, fk, &nElem, sp.g, isCellLoad, isEntry, entryCommand, entryIn(sp.g, sp.call))
+	}
+	{
+		isEntry, entryCommand := mkPreds(entry)
+		c08ElemChecks(c, fk, &nElem, fn, isCellLoad, isEntry, entryCommand, entry)
+	}
+	// the list field is touched nowhere else
+	for _, g := range shippedFuncs(c) {
+		inSteps := g == fn
+		for _, sp := range steps {
+			if sp.g == g {
+				inSteps = true
+			}
+		}
+		if inSteps {
+			continue
+		}
+		ssau.ForEachInstr(g, false, func(in ssa.Instruction) {
+			if fa, ok := in.(*ssa.FieldAddr); ok && isCellAddr(fa) {
+				r.Bad("O-3", fk+"#list-touched-elsewhere:"+load.FuncKey(g), c.P.Pos(fa.Pos()), "the notebook list is also reached from "+load.FuncKey(g)+", which the save does not go through")
+			}
+		})
+	}
+	r.Floor("O-3", "notebook update sites (append + replace)", nStores+nElem, 2)
+	// 4. the write: a step that atomically replaces <object>.path by the marshalled list field
+	ev := &ctxEval{c: c}
+	var writes []*ssa.Call
+	for _, sp := range steps {
+		for _, w := range notebookWritesDirect(c, sp.g) {
+			writes = append(writes, sp.call)
+			pathOK := ev.Describe(w.path, []*ssa.Call{sp.call}) == "param:"+fn.Params[0].Name()
+			r.Check(isCellLoad(w.list) && pathOK, "O-3", fmt.Sprintf("%s#write-%d", fk, len(writes)), c.P.Pos(w.call.Pos()), "writes the updated slice to dbPath", "the slice written is not the updated notebook slice, or it is written to a different path")
+		}
+	}
+	r.Floor("O-3", "write calls", len(writes), 1)
+	c08AfterWrites(c, fn, fk, writes, readCall)
+	return true
+}
+
+// paramCellLoad: v is a load of the spill cell of parameter p.
+func paramCellLoad(v ssa.Value, p *ssa.Parameter) bool {
+	u, ok := v.(*ssa.UnOp)
+	return ok && u.Op == token.MUL && paramCell(u.X, p)
 }
